@@ -48,6 +48,13 @@ CLAIMED = {
          'every probe mutating the containers it receives and the store re-observed afterwards.',
          BASE + 'Partial: aliasing cannot be exhibited by the immutable model (it is detected as disagreement after mutation); deepcopy '
          'traversal order is mirrored; each textual reference occurrence is a distinct object; acyclic configurations.'),
+ 'C05': ('Theorems constant_delivers_identity / macro_reads_store_at_use / constant_rules / constant_clash_iff (via the suffix-map '
+         'theorems of C08) / resolve_spec / finalize_rejects_unbound_macro / finalize_rejects_unevaluated_macro hold for every state; the '
+         'evaluator and the constant map are tied to gin.config by histories that define, redefine and use macros in every order across '
+         'parse calls and programmatic binds (incl. macros bound to evaluated references), define colliding constants in and out of '
+         'interactive mode, resolve %abbreviations at parse time, make consuming calls and finalize under random active scopes.',
+         BASE + 'Partial: that two histories reach the same store is observed, not proved (evaluation_depends_only_on_state is '
+         'the trivial half); macro names are identifiers or scope-like a/b; acyclic definitions.'),
  'C07': ('Theorems operative_param (exact per-parameter characterisation of what one call records) / operative_excludes_caller_supplied / '
          'operative_only_supplied (binding, or configurable representable default) / call_records (entry update, frame for never-called '
          'configurables) / rejected_call_records_nothing hold for every signature, lists, store, scope and argument split; the mirror is '
